@@ -27,8 +27,14 @@ THEOREMS = [f'Gnpy.Bands.{t}' for t in (
     'mk_sorted_perm', 'mk_strictly_sorted', 'mk_error_kind', 'mk_accepts_iff', 'mk_rejects_iff', 'mk_rejects_overlap',
     'mk_rejects_baud', 'mk_order_irrelevant', 'propagate_order_irrelevant', 'demux_sublist', 'mux_spec', 'mux_demux',
     'commonRange_spec', 'commonRange_disjoint', 'filterSi_spec', 'filter_idempotent', 'edfaCall_id', 'multibandCall_id',
-    'multiband_no_dup', 'multiband_overlap_rejects', 'path_preserves_channels', 'propagate_spec', 'propagate_rejects', 'grid_valid', 'gridSpectrum_ok', 'grid_inside')]
-RULE = ('cases from one PRNG: (0) "grid": create_input_spectral_information on uniform grids of 0-76 channels whose f_max '
+    'multiband_no_dup', 'multiband_overlap_rejects', 'path_preserves_channels', 'propagate_spec', 'propagate_rejects', 'grid_valid', 'gridSpectrum_ok', 'grid_inside',
+    'loaded_multiband_wf', 'loaded_typed_default_wf', 'loaded_partial_not_wf', 'designed_multiband_wf', 'designed_wf',
+    'propagate_spec_designed')]
+RULE = ('cases from one PRNG: (00) "build": ROADM chains whose multiband elements are declared in every way the loader accepts '
+        '(typed with all member amplifiers in library or reversed order, typed with a partial list, typed without '
+        'amplifiers, untyped and left to the auto-design; 5 stock multiband varieties; design bands listed C,L or L,C): '
+        'params.bands, the first band of every amplifier and the amplifier keys after network_from_json and again after the '
+        'design vs loadMultiband / designMultiband; (0) "grid": create_input_spectral_information on uniform grids of 0-76 channels whose f_max '
         'sits on / just before / just after a grid step, baud rate below, at and above the spacing; (a) "ctor": 1-12 (thorough: up to 60) carriers with integer-Hz frequencies, mixed baud/slot, '
         'slots touching, gaps, and with probability ~1/3 a defect (same frequency twice, overlapping slots, baud > slot), '
         'supplied in random order, through both constructors; (b) "bands": a valid spectrum against 1-4 random bands '
@@ -43,7 +49,10 @@ RULE = ('cases from one PRNG: (0) "grid": create_input_spectral_information on u
         '(ValueError), empty merge (ValueError). Non-trivial: ctor with >= 2 channels supplied out of order or rejected; '
         'bands with >= 1 channel selected and >= 1 dropped; common with >= 2 amplifiers; path with >= 1 channel removed '
         'and >= 1 kept across >= 1 amplifier; distinct = canonical JSON of the case')
-MODEL_SCOPE = ('modelled: SpectralInformation.__init__ (argsort, overlap and baud checks, common permutation of all per-channel '
+MODEL_SCOPE = ('modelled: how a multiband element is built (json_io._update_band, the Multiband_amplifier branch of '
+               'network_from_json, Multiband_amplifier.__init__, find_band_name, the per-band amplifier creation and the '
+               'params.bands overwrite of network.set_egress_amplifier; the amplifier variety chosen per band is an input); '
+               'SpectralInformation.__init__ (argsort, overlap and baud checks, common permutation of all per-channel '
                'arrays), __add__, select_channels, is_in_band, demuxed_/muxed_spectral_information, utils.find_common_range '
                '(sort, remove_duplicates, pairwise intersection rounds, calculate_spacing without design bands), '
                'request.find_elements_common_range / filter_si / propagate (channel set), Edfa.__call__ and '
@@ -65,8 +74,10 @@ SINGLE = S.SINGLE
 
 def gen(rng, tier, widen=False):
     k = rng.random()
-    if k < 0.06:
+    if k < 0.05:
         return gen_grid(rng)
+    if k < 0.09:
+        return gen_build(rng)
     if k < 0.30:
         return gen_ctor(rng, tier)
     if k < 0.45:
@@ -121,6 +132,20 @@ def gen_grid(rng):
     fmax = fmin + n * spacing + rng.choice([0, 0, G, spacing - G, -G])
     baud = rng.choice([b for b in S.BAUDS if b <= spacing] + [spacing, spacing + 1_000_000_000])
     return {'kind': 'grid', 'fmin': fmin, 'fmax': fmax, 'spacing': spacing, 'baud': baud}
+
+
+BUILD_KINDS = ['typed_full', 'typed_rev', 'typed_none', 'typed_subset_c', 'typed_subset_l', 'untyped_none']
+
+
+def gen_build(rng):
+    """a ROADM chain whose multiband elements are declared in every way the loader accepts: typed with all member
+    amplifiers (library order or reversed), typed with a partial amplifier list, typed without amplifiers, untyped
+    (left to the auto-design)"""
+    hops = []
+    for _ in range(rng.choice([1, 1, 2])):
+        var = rng.choice(list(MB))
+        hops.append([[rng.choice(BUILD_KINDS), var] for _ in range(rng.choice([2, 3, 4]))])
+    return {'kind': 'build', 'hops': hops, 'design_bands_l_first': rng.random() < 0.5}
 
 
 def gen_bands(rng, tier):
@@ -363,7 +388,7 @@ def _check_built(res, si, car, where):
 # ---------------------------------------------------------------------------------------------------------------------
 
 def run(case, drv):
-    return {'grid': run_grid, 'ctor': run_ctor, 'bands': run_bands, 'common': run_common, 'path': run_path, 'call': run_call,
+    return {'build': run_build, 'grid': run_grid, 'ctor': run_ctor, 'bands': run_bands, 'common': run_common, 'path': run_path, 'call': run_call,
             'malformed': run_malformed}[case['kind']](case, drv)
 
 
@@ -401,6 +426,127 @@ def run_ctor(case, drv):
     res.nontrivial = len(car) >= 2 and (si is None or freqs != sorted(freqs))
     res.stats.update({'ctor': 1, 'ctor_defect_' + str(case['defect']): 1, 'ctor_accepted': int(si is not None),
                       'ctor_via_' + via: 1, 'ctor_channels': len(car)})
+    return res
+
+
+def _ib(b):
+    return [int(b['f_min']), int(b['f_max'])]
+
+
+def _mb_view(el):
+    """what the implementation holds about a multiband element: params.bands, first band of every amplifier in dict order,
+    the dict keys"""
+    return {'params': [_ib(b) + [None] for b in (el.params.bands or [])],
+            'bands': [_ib(a.params.bands[0]) + [None] for a in el.amplifiers.values()],
+            'names': list(el.amplifiers)}
+
+
+def check_designed_wf(res, el, where='designed'):
+    """monitor (assumption of the path theorems, on the real object): after the design the bands seen by the common-range
+    computation are exactly the first bands of the per-band amplifiers, pairwise disjoint, one amplifier per band name"""
+    v = _mb_view(el)
+    pb, cb = [b[:2] for b in v['params']], [b[:2] for b in v['bands']]
+    if sorted(pb) != sorted(cb) or len({tuple(b) for b in pb}) != len(pb):
+        res.fail(f'wf-violated: {where} multiband element {el.uid!r}: params.bands {pb} (used for the common range) differ from '
+                 f'the bands of its amplifiers {cb} (used by __call__)')
+    for i in range(len(cb)):
+        for j in range(i + 1, len(cb)):
+            if not (cb[i][1] <= cb[j][0] or cb[j][1] <= cb[i][0]):
+                res.fail(f'wf-violated: {where} multiband element {el.uid!r}: amplifier bands {cb[i]} and {cb[j]} overlap')
+    if len(set(v['names'])) != len(v['names']):
+        res.fail(f'wf-violated: {where} multiband element {el.uid!r}: two amplifiers for one band name {v["names"]}')
+
+
+def run_build(case, drv):
+    from gnpy.tools.json_io import network_from_json
+    from gnpy.tools.worker_utils import designed_network
+    from gnpy.core.elements import Multiband_amplifier, Roadm, Transceiver
+    res = Result()
+    eq = nets.eqpt('eqpt_config_multiband.json')
+    lib = eq['Edfa']
+    # the library side: `bands` of a multi_band entry = member bands, duplicates removed; members pairwise disjoint
+    for name, amp in lib.items():
+        if amp.type_def == 'multi_band':
+            members = [[int(lib[a].f_min), int(lib[a].f_max)] for a in amp.multi_band]
+            res.cmp_exact('json_io._update_band', [_ib(b) + [None] for b in amp.bands], drv.ask('c07.dedup', bands=members))
+            d = amp.bands
+            if any(not (_ib(d[i])[1] <= _ib(d[j])[0] or _ib(d[j])[1] <= _ib(d[i])[0])
+                   for i in range(len(d)) for j in range(i + 1, len(d))):
+                res.stats['library_multiband_entry_with_overlapping_members'] += 1
+    op = {'gain_target': 20.0, 'delta_p': 0, 'out_voa': 1.0, 'tilt_target': 0.0}
+    dbs = [S.LBAND_JSON, S.CBAND_JSON] if case['design_bands_l_first'] else [S.CBAND_JSON, S.LBAND_JSON]
+    n = len(case['hops']) + 1
+    els, cxs, spec = [], [], {}
+    for i in range(n):
+        els += [nets.trx(f'trx {i}'), nets.roadm(f'roadm {i}', {'design_bands': copy.deepcopy(dbs)})]
+        cxs += [nets.cx(f'trx {i}', f'roadm {i}'), nets.cx(f'roadm {i}', f'trx {i}')]
+    for h, hop in enumerate(case['hops']):
+        for d, (a, b) in (('e', (h, h + 1)), ('w', (h + 1, h))):
+            ln = []
+            for i, (kind, var) in enumerate(hop):
+                uid = f'amp {d}{h}.{i}'
+                e = {'uid': uid, 'type': 'Multiband_amplifier', 'metadata': nets.loc()}
+                m = MB[var]
+                listed = {'typed_full': m, 'typed_rev': m[::-1], 'typed_subset_c': m[:1], 'typed_subset_l': m[1:]}.get(kind)
+                if kind != 'untyped_none':
+                    e['type_variety'] = var
+                if listed:
+                    e['amplifiers'] = [{'type_variety': v, 'operational': dict(op)} for v in listed]
+                spec[uid] = (kind, var, listed or [])
+                ln.append(e)
+                if i < len(hop) - 1:
+                    ln.append(nets.fiber(f'fiber {d}{h}.{i}', 80.0, 'SSMF', con_in=0.5, con_out=0.5))
+            nets.chain(els, cxs, f'roadm {a}', f'roadm {b}', ln)
+    net = network_from_json({'elements': els, 'connections': cxs}, eq)
+    mbs = sorted((x for x in net.nodes() if isinstance(x, Multiband_amplifier)), key=lambda x: x.uid)
+    pre_names = {}
+    not_wf_pre = 0
+    for el in mbs:
+        kind, var, listed = spec[el.uid]
+        libb = None if kind == 'untyped_none' else [_ib(b) for b in lib[var].bands]
+        ans = drv.ask('c07.load', lib=libb, amps=[[int(lib[v].f_min), int(lib[v].f_max)] for v in listed])
+        res.cmp_exact('network_from_json.Multiband_amplifier', {'ok': _mb_view(el)}, ans, uid=el.uid, kind=kind)
+        pre_names[el.uid] = list(el.amplifiers)
+        v = _mb_view(el)
+        not_wf_pre += int(sorted(b[:2] for b in v['params']) != sorted(b[:2] for b in v['bands']))
+    net, _, _ = designed_network(eq, net, source='trx 0', destination=f'trx {n - 1}')
+    for el in mbs:
+        # the ROADM/transceiver at the head of this element's OMS and the first element of the OMS
+        cur = el
+        while True:
+            prev = next(iter(net.predecessors(cur)))
+            if isinstance(prev, (Roadm, Transceiver)):
+                break
+            cur = prev
+        design = sorted((_ib(b) for b in prev.per_degree_design_bands[cur.uid]))
+        sel = [[name, [int(lib[a.params.type_variety].f_min), int(lib[a.params.type_variety].f_max)]]
+               for name, a in el.amplifiers.items()]
+        ans = drv.ask('c07.design', existing=pre_names[el.uid], design=design, sel=sel)
+        res.cmp_exact('set_egress_amplifier.Multiband_amplifier', _mb_view(el), ans['elem'], uid=el.uid, kind=spec[el.uid][0])
+        if not pre_names[el.uid]:
+            res.cmp_exact('set_egress_amplifier.design_band_names', list(el.amplifiers), ans['keys'], uid=el.uid)
+        check_designed_wf(res, el)
+    # the property on the designed line: a C+L launch crosses every element with its channel list intact
+    from gnpy.topology.request import propagate
+    car = _carriers(_random.Random(len(mbs)), WIDE, 10)
+    path, req = S.path_request(eq, net, 'trx 0', f'trx {n - 1}', car)
+    try:
+        with S.Recorder(keep_op_events=False) as rec:
+            propagate(path, req, eq)
+        for ci, call in enumerate(rec.calls):
+            b, a = _ident(call.before), _ident(call.after)
+            if a != b:
+                lost = sorted(set(r[0] for r in b) - set(r[0] for r in a))
+                res.fail(f'element-changed-channels: {call.kind} {call.uid!r} (element {ci}) received {len(b)} channels and '
+                         f'returned {len(a)} (lost {lost[:3]})', element=call.kind)
+                break
+        res.stats['build_propagated_channels'] += len(rec.calls[0].before['freq'])
+    except ValueError:
+        res.stats['build_no_channel_in_common_range'] += 1
+    res.nontrivial = True
+    res.stats.update({'build': 1, 'build_multiband_elements': len(mbs), 'build_elements_not_wf_before_design': not_wf_pre})
+    for kind, _, _ in spec.values():
+        res.stats['build_' + kind] += 1
     return res
 
 
@@ -554,6 +700,9 @@ def run_path(case, drv):
         car, cr = _path_carriers(case, path, eq)
         path, req = _req_with(eq, net, src, dst, car)
     fidx = {int(c['f']): i for i, c in enumerate(car)}
+    for el_ in path:
+        if type(el_).__name__ == 'Multiband_amplifier':
+            check_designed_wf(res, el_, 'designed path:')
     abands = _amp_bands(path)
     sid = eq['SI']['default']
     margs = dict(path=[_elem_json(ab) for ab in abands], fmin=int(sid.f_min), fmax=int(sid.f_max), spacing=int(sid.spacing),
